@@ -160,12 +160,13 @@ Theorem C16_every_callee_classified :
 Proof. exact every_callee_classified. Qed.
 Print Assumptions C16_every_callee_classified.
 
-(* the helpers on the steady-state path: echoNotify and the fast path of findOrCreateHostWithLock call nothing that
-   can allocate (so a pending ping, whoever answers it, costs nothing - measured per call by kind ppa) *)
+(* the helpers on the steady-state path, as leaf call sets (package-local callees expanded): echoNotify reaches nothing
+   that can allocate (so a pending ping, whoever answers it, costs nothing - measured per call by kind ppa); hostOnline
+   reaches only the calls that build the online-transition log lines *)
 Theorem C16_steady_helpers_alloc_free :
-  helper_alloc_free "fn:echoNotify" = true /\ helper_alloc_free "fn:findOrCreateHostWithLock.fast" = true /\
-  helper_alloc_free "fn:findOrCreateHostWithLock" = false /\ helper_alloc_free "fn:onlineTransition" = false /\
-  calls_of "fn:hostOnline" parse_calls = Some [".Lock"; ".Unlock"; ".onlineTransition"]%string.
+  helper_alloc_free "fn:echoNotify" = true /\
+  option_map (filter helper_may_alloc) (calls_of "fn:hostOnline" parse_calls) = Some [".IP"; ".Msg"; ".Struct"; ".Write"]%string /\
+  helper_alloc_free "fn:findOrCreateHostWithLock" = false.
 Proof. exact steady_helpers_alloc_free. Qed.
 Print Assumptions C16_steady_helpers_alloc_free.
 
